@@ -4,6 +4,7 @@ CONSTANTS
   Chunks = {0, 1, 3}
   MaxSteps = 5
   MaxFile = 6
+  Modes = {1, 2, 3, 4, 5, 6}
   Emit = TRUE
 VIEW view
 INVARIANT FileOK
